@@ -650,6 +650,11 @@ class UpdateCollection(Message):
             # MP_REACH_NLRI contains nexthop - use iter_routed() for RoutedNLRI
             announces.extend(reach.iter_routed())
 
+        if Attribute.CODE.INTERNAL_TREAT_AS_WITHDRAW in attributes:
+            # RFC 7606: the routes of an UPDATE with a malformed attribute are withdrawn, never announced
+            withdraws.extend(routed.nlri for routed in announces)
+            announces = []
+
         return cls(announces, withdraws, attributes)
 
     # EOR prefix for non-IPv4-unicast families
